@@ -8,7 +8,7 @@ import numpy as np
 import xarray as xr
 
 from vlib import core, calib, gen_files
-from vlib.props.c11 import worker
+from vlib.props.c11 import worker, read_here
 
 RTOL = 1e-10
 
@@ -32,10 +32,10 @@ def schedulers(ctx):
 
 
 def run(ctx):
-    from dtscalibration.variance_stokes import variance_stokes_constant, variance_stokes_exponential
+    from dtscalibration.variance_stokes import variance_stokes_constant, variance_stokes_exponential, variance_stokes_linear
 
     ctx.extra["rule"] = ("(a) a synthesised Silixa file set read with load_in_memory False / True / 'auto' (values identical); (b) seeded single and double-ended datasets re-chunked along x "
-                         "and time (a seeded sample of chunkings in quick, all chunkings of small arrays in thorough) and calibrated / passed to the variance estimators and "
+                         "and time (a seeded sample of chunkings in quick, all chunkings of small arrays in thorough) and calibrated / passed to the three variance estimators and "
                          "ufunc_per_section under the synchronous scheduler and the threaded scheduler with 1-16 workers; every output compared with the in-memory result at 1e-10 "
                          "relative. variance_stokes_exponential is limited to <= 4 chunks per dimension (it drives LSQR through dask: minutes at 1x1 chunks)")
     nexp = {}
@@ -55,7 +55,7 @@ def run(ctx):
             for lim, cs in ((True, None), (False, None), ("auto", None), ("auto", "1kiB"), ("auto", "256B"), (False, "256B"), (True, "256B")):
                 rec = {"reader": kind, "directory": dd, "load_in_memory": lim, "dask_chunk_size": cs}
                 ctx.case(("reader", kind, dd, str(lim), cs), sample=rec)
-                o = worker(kind, dd, {"load_in_memory": lim, "dask_chunk_size": cs})
+                o = read_here(kind, dd, {"load_in_memory": lim, "dask_chunk_size": cs})
                 if "error" in o:
                     ctx.violation("reader:raised", o["error"], rec)
                     continue
@@ -75,7 +75,7 @@ def run(ctx):
             for sched in ("synchronous", "threads"):
                 rec = {"reader": "silixa-pair", "load_in_memory": lim, "scheduler": sched}
                 ctx.case(("reader-pair", str(lim), sched), sample=rec)
-                o = worker("silixa-pair", da_, {"load_in_memory": lim, "other": db_, "scheduler": sched})
+                o = read_here("silixa-pair", da_, {"load_in_memory": lim, "other": db_, "scheduler": sched})
                 if "error" in o:
                     ctx.violation("reader-pair:raised", o["error"], rec)
                     continue
@@ -88,7 +88,8 @@ def run(ctx):
     ncase = 2 if ctx.quick else 6
     for c in range(ncase):
         double = bool(c % 2)
-        p = calib.random_params(rng, double, quick=True, nx=int(rng.integers(10, 14)), nt=int(rng.integers(2, 4)), nta=int(rng.choice([0, 1])), noise=0.01, nmatch=0, var_mode="float")
+        p = calib.random_params(rng, double, quick=True, nx=int(rng.integers(10, 14)), nt=int(rng.integers(2, 4)), nta=int(rng.choice([0, 1])), noise=0.01, nmatch=0, var_mode="float",
+                                nbath=3, nstretch_max=int(1 + c % 2))
         case = calib.Case(p)
         f = case.f
         ds = f.ds
@@ -99,13 +100,20 @@ def run(ctx):
             v_exp, r_exp = variance_stokes_exponential(ds["st"], f.sections, ds["userAcquisitionTimeFW"], reshape_residuals=True)
             v_const, v_exp, r_const, r_exp = float(v_const), float(v_exp), np.asarray(r_const.values), np.asarray(r_exp.values)
             u_eager = np.asarray(ds.dts.ufunc_per_section(sections=f.sections, label="st", temp_err=True, calc_per="all"))
+            import contextlib, io
+            # the linear estimator is run with the baths listed in ROTATED fibre order (2nd, 3rd, ..., 1st): a reordering that is not its own inverse
+            keys_x = sorted(f.sections, key=lambda k_: min(sl.start for sl in f.sections[k_]))
+            sec_rot = {k_: f.sections[k_] for k_ in keys_x[1:] + keys_x[:1]}
+            with contextlib.redirect_stdout(io.StringIO()):
+                lin_eager = variance_stokes_linear(ds["st"], sec_rot, ds["userAcquisitionTimeFW"], nbin=4)
+            lin_eager = [np.asarray(lin_eager[k], float) for k in range(4)]   # slope, offset, st_sort_mean, st_sort_var
         except Exception as ex:
             ctx.count(f"eager-raised-{type(ex).__name__}")
             continue
         nx, nt = ds.x.size, ds.time.size
         chunkings = [(cx, ct) for cx in range(1, nx + 1) for ct in range(1, nt + 1)]
         if ctx.quick or nx * nt > 40:
-            idx = rng.choice(len(chunkings), size=min(len(chunkings), 4 if ctx.quick else 12), replace=False)
+            idx = rng.choice(len(chunkings), size=min(len(chunkings), 3 if ctx.quick else 12), replace=False)
             chunkings = [chunkings[i] for i in idx] + [(1, 1)]
         names = ["tmpf", "tmpf_var", "p_val", "p_cov"] + (["tmpb", "tmpw", "tmpw_var"] if double else [])
         for (cx, ct) in chunkings:
@@ -142,6 +150,18 @@ def run(ctx):
                 sc = max(float(np.nanmax(np.abs(r_const))), float(np.nanmax(np.abs(r_exp))), 1e-300)
                 if not (rc_.shape == r_const.shape and np.allclose(rc_, r_const, rtol=0, atol=1e-6 * sc, equal_nan=True)) or not (re_.shape == r_exp.shape and np.allclose(re_, r_exp, rtol=0, atol=1e-5 * sc, equal_nan=True)):
                     ctx.violation("chunked-residual-field-differs", "the residual array returned for chunked data differs from the in-memory one (placement or values)", rec)
+                try:
+                    if workers not in (None, 4):
+                        raise StopIteration
+                    with dask.config.set(**cfg), contextlib.redirect_stdout(io.StringIO()):
+                        lin = variance_stokes_linear(dsc["st"], sec_rot, dsc["userAcquisitionTimeFW"], nbin=4)
+                    lin = [np.asarray(lin[k].compute() if hasattr(lin[k], "compute") else lin[k], float) for k in range(4)]
+                    if not all(a.shape == b.shape and np.allclose(a, b, rtol=1e-7, atol=1e-9 * max(1.0, float(np.max(np.abs(b))))) for a, b in zip(lin, lin_eager)):
+                        ctx.violation("chunked-linear-estimator-differs", "variance_stokes_linear (slope, offset, binned means and variances) on chunked data differs from in memory", rec)
+                except StopIteration:
+                    pass
+                except Exception as ex:
+                    ctx.violation(f"chunked-linear-raised:{type(ex).__name__}", f"variance_stokes_linear on dask-backed input raised {type(ex).__name__}: {str(ex)[:120]}", rec)
                 if not close(u, u_eager):
                     ctx.violation("chunked-ufunc-differs", "ufunc_per_section on chunked data differs from in memory", rec)
 
